@@ -1,11 +1,184 @@
-import Firefly.Model.Vmm
-/-! C04 — page-table operations implement exactly the requested address translation. -/
-namespace Firefly.C04
-open Firefly.Vmm
+import Firefly.Proof.VmmPdt
+/-!
+# C04 — Page-table operations implement exactly the requested address translation
 
-/-- D13: `SetFrame` does not mask the frame: a frame number of 2^40 spills into bit 52 and the
-hardware frame field reads 0.  Frame numbers < 2^40 are a hypothesis of the refinement theorems. -/
+"After any sequence of map, unmap, region-map and identity-map requests, translating a virtual
+address yields the frame most recently mapped for its page plus the page offset, with exactly the
+requested permission bits in the hardware entry, or reports it unmapped if the page was never mapped
+or has been unmapped; translations of all other pages are unchanged, newly created page-table levels
+start empty, and the TLB entry of every changed page is invalidated. Performing the operation on an
+address space that is not active leaves the active one bit-for-bit as it was. If a frame for a new
+page-table level cannot be allocated the operation returns that error and no other page's
+translation changes."
+
+Vocabulary (definitions in `Firefly/Proof/Vmm*.lean`, model in `Firefly/Model/Vmm.lean`):
+`mmu`/`mmuWalk` is the hardware walk; `Window st R` says the recursive window of the active root
+shows the address space rooted at `R`; `Chain m R va L T` says `T` is the level-`L` table of `va`'s
+path; `Path m R va T1 T2 T3` says the three upper levels of `va` exist; `E va L` is the entry
+address `walk` computes at level `L`; `kidx va L` the table index of `va` at level `L`.
+-/
+namespace Firefly.C04
+open Firefly.Vmm Firefly.Gen.C04
+
+/-- The entry addresses `walk` computes by its add / shift-left recurrence from `pdtVirtualAddr`, in
+closed form, for every virtual address: level `L` has `4-L` leading index fields 511 (the recursive
+slot), then the indices of `va` above level `L`, and byte offset `8 · index L`. -/
+theorem recursive_window_addresses (va : W) :
+    (E va 0).toNat = 2 ^ 64 - 2 ^ 12 + 8 * kidx va 0 ∧
+    (E va 1).toNat = 2 ^ 64 - 2 ^ 21 + 2 ^ 12 * kidx va 0 + 8 * kidx va 1 ∧
+    (E va 2).toNat = 2 ^ 64 - 2 ^ 30 + 2 ^ 21 * kidx va 0 + 2 ^ 12 * kidx va 1 + 8 * kidx va 2 ∧
+    (E va 3).toNat = 2 ^ 64 - 2 ^ 39 + 2 ^ 30 * kidx va 0 + 2 ^ 21 * kidx va 1 + 2 ^ 12 * kidx va 2 + 8 * kidx va 3 :=
+  ⟨E0_toNat va, E1_toNat va, E2_toNat va, E3_toNat va⟩
+
+/-- **The recursive-mapping trick is sound.** If the active root's last entry points to `R` and `R`'s
+last entry to itself, then for every `va` and level `L`: when `T` is the level-`L` table on `va`'s
+path, the entry address computed by `walk` dereferences — through the hardware walk from CR3 — to
+word `kidx va L` of exactly that table. -/
+theorem recursive_window {st : St} {R : W} (hw : Window st R) (va : W) (L : Nat) (T : W) (hL : L ≤ 3)
+    (hc : Chain st.mem R va L T) (hb : st.mem.backed (frameN T) = true) :
+    ptePtr st (E va L) = some (frameN T, kidx va L) :=
+  ptePtr_E hw va L T hL hc hb
+
+/-- **Translate.** Through the window, `Translate va` returns exactly what the hardware finds when it
+walks the tables of `R` (`frame·4096 + va mod 4096` of the leaf entry), or `ErrInvalidMapping` when a
+level is not present; it changes nothing. (`Sane`: the tables on the path are RAM, no huge bits.) -/
+theorem translate_correct {st : St} {R : W} (hw : Window st R) (va : W) (hs : Sane st.mem R va) :
+    translate st va =
+      .ok ((match mmuWalk st.mem va [39, 30, 21, 12] R with
+            | some pa => (0, pa)
+            | none => (eInvalidMapping, 0)), st) :=
+  translate_eq_hw hw va hs
+
+/-- Full statement of `map_refines`: for every state whose path tables form a tree with the free
+frames fresh, `Map page frame flags` (frame < 2^40, flags outside bits 12–51) makes the hardware
+translate `page` to `(frame, flags)`, leaves every other page's translation unchanged, zeroes each
+newly allocated level, flushes `page`, and with too few free frames returns the allocator's error
+without changing any translation.
+
+**Proved here (`_partial`)**: the case in which the three upper levels of the page exist (no new
+level): exact post-state — precisely one word of physical memory changes, to `frame<<12 | flags` —
+the hardware's resulting translation of the page, the flush list, and no allocation.  The cases
+that create new levels (allocation, zeroing, allocator failure) are covered by the correspondence
+run and the oracle clauses `map-exact-entry`, `others-unchanged`, `new-level-empty`,
+`alloc-error-iff`, `fail-no-translation-change`. -/
+theorem map_refines_partial {st : St} {R T1 T2 T3 : W} (page frame flags : W) (hw : Window st R)
+    (p : Path st.mem R (pageAddr page) T1 T2 T3)
+    (hd : frameN T3 ≠ frameN R ∧ frameN T3 ≠ frameN T1 ∧ frameN T3 ≠ frameN T2)
+    (hf : FrameOK frame) (hfl : FlagsOK flags)
+    (hg : (st.protect && frame == st.zeroFrame && (flags &&& fRW) != 0) = false) :
+    ∃ st', mapOp st page frame flags = .ok (0, st') ∧
+      (∀ F j, st'.mem.rd F j =
+        if F = frameN T3 ∧ j = kidx (pageAddr page) 3 then (frame <<< 12) ||| flags else st.mem.rd F j) ∧
+      mmuWalk st'.mem (pageAddr page) [39, 30, 21, 12] R =
+        (if flags &&& 1#64 = 0#64 then none else some ((frame <<< 12) + (pageAddr page &&& 0xfff#64))) ∧
+      st'.flushes = st.flushes ++ [pageAddr page] ∧ st'.free = st.free ∧ st'.cr3 = st.cr3 := by
+  refine ⟨_, mapOp_present page frame flags hw p hg, ?_, ?_, rfl, rfl, rfl⟩
+  · intro F j
+    simp only [St.flush, St.wrLoc, rd_wr, mkEntry_eq]
+    by_cases h : F = frameN T3 ∧ j = kidx (pageAddr page) 3
+    · obtain ⟨rfl, rfl⟩ := h; simp
+    · have : ¬(frameN T3 = F ∧ kidx (pageAddr page) 3 = j) := fun hh => h ⟨hh.1.symm, hh.2.symm⟩
+      simp [h, this]
+  · have := mmuWalk_leaf_written p (mkEntry frame flags) hd
+    simp only [St.flush, St.wrLoc]
+    rw [this, mkEntry_low 1#64 (by decide), mkEntry_frame hf hfl]
+
+/-- **All other pages unchanged** by a store to one page-table word: the hardware translation of any
+`va'` whose path never reads that word is the same before and after.  (With `map_refines_partial` /
+`unmap_refines`: the stored word is the leaf entry of the mapped page; in a tree of tables only the
+page itself reads it.) -/
+theorem other_pages_unchanged (m : Mem) (R : W) (F j : Nat) (v : W) (va' : W)
+    (htop : m.rd (frameN R) (kidx va' 0) &&& 128#64 = 0#64)
+    (hav : ∀ L T, L ≤ 3 → Chain m R va' L T → ¬(F = frameN T ∧ j = kidx va' L)) :
+    mmuWalk (m.wr F j v) va' [39, 30, 21, 12] R = mmuWalk m va' [39, 30, 21, 12] R :=
+  mmuWalk_wr_avoid m R F j v va' htop hav
+
+/-- **Unmap**, page present down to its leaf table: the present bit of the leaf entry is cleared
+(every other bit of every word of memory is kept), the hardware no longer translates the page, the
+page is flushed, nothing is allocated. -/
+theorem unmap_refines {st : St} {R T1 T2 T3 : W} (page : W) (hw : Window st R)
+    (p : Path st.mem R (pageAddr page) T1 T2 T3)
+    (hd : frameN T3 ≠ frameN R ∧ frameN T3 ≠ frameN T1 ∧ frameN T3 ≠ frameN T2) :
+    ∃ st', unmapOp st page = .ok (0, st') ∧
+      (∀ F j, st'.mem.rd F j =
+        if F = frameN T3 ∧ j = kidx (pageAddr page) 3 then st.mem.rd F j &&& ~~~1#64 else st.mem.rd F j) ∧
+      mmuWalk st'.mem (pageAddr page) [39, 30, 21, 12] R = none ∧
+      st'.flushes = st.flushes ++ [pageAddr page] ∧ st'.free = st.free := by
+  refine ⟨_, unmapOp_present page hw p, ?_, ?_, rfl, rfl⟩
+  · intro F j
+    simp only [St.flush, St.wrLoc, rd_wr, clearFlags]
+    have : fPresent = 1#64 := by decide
+    rw [this]
+    by_cases h : F = frameN T3 ∧ j = kidx (pageAddr page) 3
+    · obtain ⟨rfl, rfl⟩ := h; simp
+    · have : ¬(frameN T3 = F ∧ kidx (pageAddr page) 3 = j) := fun hh => h ⟨hh.1.symm, hh.2.symm⟩
+      simp [h, this]
+  · have := mmuWalk_leaf_written p (clearFlags (st.mem.rd (frameN T3) (kidx (pageAddr page) 3)) fPresent) hd
+    simp only [St.flush, St.wrLoc]
+    rw [this, if_pos]
+    have : fPresent = 1#64 := by decide
+    rw [clearFlags, this, BitVec.and_assoc]
+    have : ~~~1#64 &&& 1#64 = 0#64 := by decide
+    rw [this]; simp
+
+/-- **Unmap of a page whose level `L < 3` is missing** reports `ErrInvalidMapping` and changes nothing. -/
+theorem unmap_unmapped {st : St} {R : W} (page : W) (hw : Window st R) (L : Nat) (hL : L < 3) (T : W)
+    (hc : Chain st.mem R (pageAddr page) L T) (hb : st.mem.backed (frameN T) = true)
+    (hp : st.mem.rd (frameN T) (kidx (pageAddr page) L) &&& 1#64 = 0#64) :
+    unmapOp st page = .ok (eInvalidMapping, st) :=
+  unmapOp_absent page hw L hL T hc hb hp
+
+/-- Full statement of `inactive_leaves_active_bit_identical`: `PageDirectoryTable.Map/Unmap` on a
+table that is not the active one leaves every word of every table of the active address space as it
+was.  **Proved here (`_partial`)** for `Map` when the page's three upper levels exist in the inactive
+table: after the call *every* word of physical memory except the leaf entry in the inactive table's
+own leaf table is bit-identical (the active root's last entry has been swapped and restored), the
+flushes are swapped-entry, page, restored-entry, and CR3 is unchanged.  New levels in the inactive
+table: correspondence + oracle clause `inactive-leaves-active-identical`. -/
+theorem inactive_leaves_active_bit_identical_partial {st : St} {A P T1 T2 T3 : W} (h : Inactive st A P)
+    (page frame flags : W) (p : Path st.mem (P <<< 12) (pageAddr page) T1 T2 T3)
+    (hd : A.toNat ≠ frameN T1 ∧ A.toNat ≠ frameN T2 ∧ A.toNat ≠ frameN T3)
+    (hg : (st.protect && frame == st.zeroFrame && (flags &&& fRW) != 0) = false) :
+    ∃ st', pdtMap st P page frame flags = .ok (0, st') ∧
+      (∀ F j, ¬(F = frameN T3 ∧ j = kidx (pageAddr page) 3) → st'.mem.rd F j = st.mem.rd F j) ∧
+      st'.mem.rd (frameN T3) (kidx (pageAddr page) 3) = mkEntry frame flags ∧
+      st'.flushes = st.flushes ++ [frameAddr A + lastEntryOff, pageAddr page, frameAddr A + lastEntryOff] ∧
+      st'.cr3 = st.cr3 := by
+  obtain ⟨st', h1, h2, h3, h4, _⟩ := pdtMap_inactive_present h page frame flags p hd hg
+  refine ⟨st', h1, ?_, ?_, h3, h4⟩
+  · intro F j hne; rw [h2, if_neg hne]
+  · rw [h2, if_pos ⟨rfl, rfl⟩]
+
+/-- **Region mapping maps exactly the pages of the region**: the page loop of `MapRegion` /
+`IdentityMapRegion` is `Map` applied, in order, to `n` consecutive pages paired with `n` consecutive
+frames (stopping at the first error), and `n = ⌈size / 4096⌉`. -/
+theorem region_pages (flags : W) (n : Nat) (page frame : W) (st : St) :
+    mapLoop flags n page frame st = seqMap flags (run page frame n) st ∧
+    (run page frame n).length = n ∧
+    (∀ i, i < n → (run page frame n)[i]? = some (page + BitVec.ofNat 64 i, frame + BitVec.ofNat 64 i)) ∧
+    (∀ size : W, roundWraps size = false → (roundUp size >>> pageShift).toNat = (size.toNat + 4095) / 4096) :=
+  ⟨mapLoop_eq_seqMap flags n page frame st, run_length page frame n, fun i hi => run_get page frame n i hi,
+    roundUp_pages⟩
+
+/-- D13 (domain boundary): `SetFrame` does not mask the frame number: frame 2^40 spills into bit 52
+and the hardware frame field reads 0.  Frame numbers < 2^40 (`FrameOK`) are a hypothesis above. -/
 theorem setframe_needs_40_bits :
     frameOf (setFrame 0 (w (2 ^ 40))) = 0 ∧ setFrame 0 (w (2 ^ 40)) &&& ~~~physMask ≠ 0 := by decide
+
+/-! ## non-vacuity: a concrete state with a recursive root and a mapped path -/
+
+/-- root = frame 1 (entry 511 → itself, entry 0 → frame 2), frame 2 [0] → 3, frame 3 [0] → 4 -/
+def exSt : St :=
+  { mem := { base := 0, n := 16,
+             log := [.word 1 511 0x1003#64, .word 1 0 0x2003#64, .word 2 0 0x3003#64, .word 3 0 0x4003#64] },
+    cr3 := 0x1000#64 }
+
+example : Window exSt 0x1000#64 :=
+  ⟨⟨by decide, by decide, by decide, by decide⟩, ⟨by decide, by decide, by decide, by decide⟩⟩
+example : Path exSt.mem 0x1000#64 (pageAddr 0) 0x2000#64 0x3000#64 0x4000#64 :=
+  ⟨⟨by decide, by decide, by decide, by decide⟩, ⟨by decide, by decide, by decide, by decide⟩,
+   ⟨by decide, by decide, by decide, by decide⟩, by decide⟩
+example : FrameOK 77#64 ∧ FlagsOK 3#64 := by unfold FrameOK FlagsOK; decide
+example : (mapOp exSt 0 77#64 3#64).toOption.map (·.1) = some 0 := by decide
 
 end Firefly.C04
